@@ -11,6 +11,21 @@ Definition calm (c : nat) (cf : nat * frame) : bool :=
   negb (Nat.eqb (fst cf) c) ||
   (negb (fname_eqb (f_name (snd cf)) NReturn) && negb (fname_eqb (f_name (snd cf)) NChClose)).
 
+Lemma on_frame_plain_noerr c s v f :
+  get_chan (s_chans s) c = Some v -> c_errs v = [] ->
+  fname_eqb (f_name f) NReturn = false -> fname_eqb (f_name f) NChClose = false ->
+  NoErr c (on_frame_plain s c v f).
+Proof.
+  intros Hreg' He Hr Hcl. unfold on_frame_plain.
+  destruct (req_get (c_req v) (f_name f)) as [u'|].
+  + destruct (resp_get (c_resp v) u'); [|exists v; auto].
+    eexists. split; [eapply upd_same; exact Hreg' | exact He].
+  + destruct (is_content (f_name f)).
+    { eexists. split; [eapply upd_same; exact Hreg' | exact He]. }
+    destruct (f_name f); try discriminate; try (exists v; now auto);
+      try (eexists; split; [eapply upd_same; exact Hreg' | exact He]).
+Qed.
+
 Lemma deliver_noerr c s cf : c <> 0%nat -> calm c cf = true -> NoErr c s -> NoErr c (deliver s cf).
 Proof.
   intros Hc Hcalm (v & Hreg & He). unfold deliver. destruct (s_io s); [|exists v; auto]. cbn [negb].
@@ -25,13 +40,10 @@ Proof.
     unfold calm in Hcalm. cbn [fst snd] in Hcalm. rewrite Nat.eqb_refl in Hcalm. cbn [negb orb] in Hcalm.
     apply andb_true_iff in Hcalm. destruct Hcalm as [Hr Hcl]. apply negb_true_iff in Hr, Hcl.
     unfold on_frame. rewrite Hreg'.
-    destruct (req_get (c_req v) (f_name f)) as [u'|].
-    + destruct (resp_get (c_resp v) u'); [|exists v; auto].
-      eexists. split; [eapply upd_same; exact Hreg' | exact He].
-    + destruct (is_content (f_name f)).
-      { eexists. split; [eapply upd_same; exact Hreg' | exact He]. }
-      destruct (f_name f); try discriminate; try (exists v; now auto);
-        try (eexists; split; [eapply upd_same; exact Hreg' | exact He]).
+    destruct (c_ret v) as [lft|]; [|now apply on_frame_plain_noerr].
+    destruct (ret_content lft f).
+    + eexists. split; [eapply upd_same; exact Hreg' | exact He].
+    + apply on_frame_plain_noerr; auto. eapply upd_same; exact Hreg'.
 Qed.
 
 Lemma quiet_calm c names cf : quiet c names cf = true -> calm c cf = true.
@@ -45,7 +57,8 @@ Qed.
 Theorem publish_confirm_outcome s c v mandatory pre tpre f tpost rest :
   c <> 0%nat -> get_chan (s_chans s) c = Some v -> conn_healthy s -> s_io s = true ->
   s_sendfail s = false ->
-  c_state v = OPEN -> c_errs v = [] -> c_req v = [] -> c_resp v = [] -> c_confirm v = true ->
+  c_state v = OPEN -> c_errs v = [] -> c_req v = [] -> c_resp v = [] -> c_ret v = None ->
+  c_confirm v = true ->
   forallb (fun t => forallb (quiet c [NAck; NNack]) t) pre = true ->
   forallb (quiet c [NAck; NNack]) tpre = true ->
   forallb (quiet c [NAck; NNack]) tpost = true ->
@@ -55,7 +68,7 @@ Theorem publish_confirm_outcome s c v mandatory pre tpre f tpost rest :
       = (s', v', RBool (fname_eqb (f_name f) NAck), rest) /\
     c_req v' = [] /\ c_resp v' = [].
 Proof.
-  intros Hc Hreg Hh Hio Hsf Hst Herr Hreq Hresp Hconf Hpre Htpre Htpost Hn.
+  intros Hc Hreg Hh Hio Hsf Hst Herr Hreq Hresp Hret Hconf Hpre Htpre Htpost Hn.
   unfold do_publish. rewrite Hconf. unfold register. rewrite Hreg. cbv zeta.
   set (u := s_uuid s).
   set (v1 := with_rpc v (fold_left (fun rq n => req_set rq n u) [NAck; NNack] (c_req v)) (resp_set (c_resp v) u [])).
@@ -72,13 +85,14 @@ Proof.
     - exact Hst.
     - exact Herr.
     - intros n. unfold v1. cbn [c_req with_rpc]. rewrite req_fold_get, Hreq. reflexivity.
-    - unfold v1. cbn [c_resp with_rpc]. rewrite Hresp. cbn. now rewrite Nat.eqb_refl. }
+    - unfold v1. cbn [c_resp with_rpc]. rewrite Hresp. cbn. now rewrite Nat.eqb_refl.
+    - exact Hret. }
   unfold chan_write. rewrite (chan_check_waiting s1 c u _ v1 W1).
   set (s2 := write_many s1 c [(WPublish, []); (WHeader, []); (WBody, [])]).
   set (v2 := with_pubs v1 (c_pubs v1 + 1)).
   assert (W2 : Waiting (upd s2 c v2) c u [NAck; NNack] v2).
   { assert (W2' : Waiting s2 c u [NAck; NNack] v1).
-    { destruct W1 as [A1 A2 A3 A4 A5 A6 A7 A8 A9]. unfold s2, write_many.
+    { destruct W1 as [A1 A2 A3 A4 A5 A6 A7 A8 A9 A10]. unfold s2, write_many.
       unfold s1 in *. cbn in *. rewrite !Hsf.
       constructor; cbn; auto. }
     apply (waiting_upd s2 c u _ v1 v2 W2'); reflexivity. }
